@@ -21,8 +21,8 @@ ASSUMPTIONS = [
     'reference = Python int()/format() two\'s complement arithmetic at 10 '
     'digits, written from the statement only',
     'not generated (statement silent): fractional decimal inputs of DEC2x, '
-    'negative numbers combined with an invalid places, lower-case hex input, '
-    'empty digit strings, text/fractional places',
+    'empty digit strings, text/fractional places (lower-case hex digits '
+    'are valid input, as in Excel)',
 ]
 FLOORS = {'calls_library': 1000, 'calls_formula': 200, 'roundtrips': 200}
 TIER_FLOORS = {'quick': {}, 'thorough': {}}
@@ -63,7 +63,9 @@ def ref_digits(n, base, places):
 
 
 def ref_value(s, base):
-    """digit string -> integer or NUM."""
+    """digit string -> integer or NUM (hex digits in either case)."""
+    if base == 16:
+        s = s.upper()
     if len(s) > 10 or len(s) == 0:
         return NUM
     if any(ch not in DIGITS[base] for ch in s):
@@ -237,16 +239,12 @@ def run(ctx):
         if v % n != sh:
             continue
         for p in PLACES_ALL:
-            if v < 0 and p is not OMIT and not 1 <= p <= 10:
-                continue        # statement silent (Excel ignores places here)
             R.library('DEC2BIN', v, p)
             if p in (OMIT, 1, 5, 10, 0, 11) or thorough:
                 R.formula('DEC2BIN', v, p)
         s = ref_digits(v, 2, OMIT)[1]
         for fn in ('BIN2DEC', 'BIN2OCT', 'BIN2HEX'):
             for p in ([OMIT] if fn == 'BIN2DEC' else PLACES_ALL):
-                if v < 0 and p is not OMIT and not 1 <= p <= 10:
-                    continue
                 R.library(fn, s, p, 'text')
                 if p in (OMIT, 3, 10):
                     R.formula(fn, s, p, 'text')
@@ -278,8 +276,6 @@ def run(ctx):
         for dst in ('BIN', 'OCT', 'HEX'):
             for p in ([OMIT, 1, 4, 10, 0, 11] if is_edge else
                       [rng.choice(PLACES_ALL)]):
-                if v < 0 and p is not OMIT and not 1 <= p <= 10:
-                    continue
                 R.library(f'DEC2{dst}', v, p)
                 if is_edge or rng.random() < 0.1:
                     R.formula(f'DEC2{dst}', v, p)
@@ -291,6 +287,10 @@ def run(ctx):
             variants = [s]
             if v >= 0 and len(s) < 10:
                 variants.append(s.zfill(rng.randint(len(s), 10)))
+            if src == 'HEX' and s.lower() != s:
+                variants.append(s.lower())
+                variants.append(''.join(ch.lower() if i % 2 else ch
+                                        for i, ch in enumerate(s)))
             for sv in variants:
                 for dst in ('DEC', 'BIN', 'OCT', 'HEX'):
                     if dst == src:
@@ -298,9 +298,6 @@ def run(ctx):
                     for p in ([OMIT] if dst == 'DEC' else
                               ([OMIT, 1, 10, 11] if is_edge else
                                [rng.choice(PLACES_ALL)])):
-                        if (p is not OMIT and not 1 <= p <= 10
-                                and ref_value(sv, b) < 0):
-                            continue
                         R.library(f'{src}2{dst}', sv, p, 'text')
                         if is_edge or rng.random() < 0.1:
                             R.formula(f'{src}2{dst}', sv, p, 'text')
@@ -319,8 +316,6 @@ def run(ctx):
             good = {'BIN': '1011', 'OCT': '1735', 'HEX': '1A9F'}[src]
             for pos in range(len(good) + 1):
                 for ch in bad_chars[src]:
-                    if src == 'HEX' and ch == 'g':
-                        continue
                     s = good[:pos] + ch + good[pos:]
                     if s.strip() != s:
                         continue   # leading/trailing blanks: statement silent
